@@ -299,10 +299,11 @@ def _run_graph(case, obs, budget=100_000):  # observed maximum on the unchanged 
             r.shuffle(adj[k])
             if case.get("tuple_adj"):
                 adj[k] = tuple(adj[k])
+        shared_adj = dict(adj)  # one dict object for both prim calls: callers try several start nodes on one graph
         for start in ("given", "none"):
             kw = {"start": _fresh(labs[case["start"]])} if start == "given" else {}
             who = f"prim[{scheme},start={start}]"
-            res = call(obs, _mst.prim, dict(adj), what=who, budget=budget, **kw)
+            res = call(obs, _mst.prim, shared_adj, what=who, budget=budget, **kw)
             if is_crash(res):
                 continue
             t = _judge(obs, who, res, n, edges, ref, False, back=bk)
